@@ -51,6 +51,85 @@ var c19Values = []interface{}{
 	[]interface{}{c19Plain{A: "s"}, &c19Zero{S: "q"}, []string{"a", "b"}, map[string]int{"one": 1}},
 }
 
+// c19Kinds has a slice and a map of every primitive kind (and of interface{}, nested slices and maps): unfolding it
+// goes through every per-kind unfolder singleton of the library, which all Unfolders of the process share.
+type c19Kinds struct {
+	B   []bool
+	S   []string
+	U   []uint
+	U8  []uint8
+	U16 []uint16
+	U32 []uint32
+	U64 []uint64
+	I   []int
+	I8  []int8
+	I16 []int16
+	I32 []int32
+	I64 []int64
+	F32 []float32
+	F64 []float64
+	X   []interface{}
+	MB  map[string]bool
+	MS  map[string]string
+	MU  map[string]uint
+	MU8 map[string]uint8
+	M16 map[string]uint16
+	M32 map[string]uint32
+	M64 map[string]uint64
+	MI  map[string]int
+	MI8 map[string]int8
+	N16 map[string]int16
+	N32 map[string]int32
+	N64 map[string]int64
+	MF3 map[string]float32
+	MF6 map[string]float64
+	MX  map[string]interface{}
+	NN  [][]int
+	MM  map[string]map[string]string
+	Z   int
+}
+
+// c19FillKinds fills every field with two elements (slices) or one entry (maps; one entry keeps the number of
+// scheduling points independent of map iteration order) derived from seed.
+func c19FillKinds(seed int) c19Kinds {
+	var k c19Kinds
+	v := reflect.ValueOf(&k).Elem()
+	var fill func(f reflect.Value, n int)
+	fill = func(f reflect.Value, n int) {
+		switch f.Kind() {
+		case reflect.Bool:
+			f.SetBool(n%2 == 0)
+		case reflect.String:
+			f.SetString(fmt.Sprintf("s%d", n))
+		case reflect.Int, reflect.Int8, reflect.Int16, reflect.Int32, reflect.Int64:
+			f.SetInt(int64(n%100) - 50)
+		case reflect.Uint, reflect.Uint8, reflect.Uint16, reflect.Uint32, reflect.Uint64:
+			f.SetUint(uint64(n % 100))
+		case reflect.Float32, reflect.Float64:
+			f.SetFloat(float64(n) + 0.5)
+		case reflect.Interface:
+			f.Set(reflect.ValueOf(fmt.Sprintf("i%d", n)))
+		case reflect.Slice:
+			s := reflect.MakeSlice(f.Type(), 2, 2)
+			fill(s.Index(0), n+1)
+			fill(s.Index(1), n+2)
+			f.Set(s)
+		case reflect.Map:
+			m := reflect.MakeMap(f.Type())
+			e := reflect.New(f.Type().Elem()).Elem()
+			fill(e, n+3)
+			m.SetMapIndex(reflect.ValueOf(fmt.Sprintf("k%d", n)), e)
+			f.Set(m)
+		}
+	}
+	for i := 0; i < v.NumField(); i++ {
+		fill(v.Field(i), seed*7+i)
+	}
+	return k
+}
+
+var c19KindsDocs = map[*Codec]*[2][]byte{codecJSON: {}, codecUBJSON: {}, codecCBOR: {}}
+
 // shared input documents (the same backing bytes are read by all threads)
 var c19Docs = map[*Codec][]byte{}
 
@@ -64,6 +143,13 @@ func c19Init() {
 			panic(err)
 		}
 		c19Docs[cd] = buf.Bytes()
+		for i := 0; i < 2; i++ {
+			var kb bytes.Buffer
+			if err := gotype.Fold(c19FillKinds(i+1), cd.NewEnc(&kb, 0)); err != nil {
+				panic(err)
+			}
+			c19KindsDocs[cd][i] = kb.Bytes()
+		}
 		for i, v := range c19LongValues {
 			var lb bytes.Buffer
 			if err := gotype.Fold(v, cd.NewEnc(&lb, 0)); err != nil {
@@ -149,6 +235,33 @@ func c19Bodies() []c19Body {
 			}})
 		}
 	}
+	for _, cd := range codecs[:2] {
+		for i := 0; i < 2; i++ {
+			cd, i := cd, i
+			out = append(out, c19Body{name: fmt.Sprintf("Parse(%s, all kinds #%d)->Unfold(c19Kinds)", cd.Name, i+1), run: func(_ *gotype.Iterator, _ *bytes.Buffer) string {
+				var t c19Kinds
+				u, err := gotype.NewUnfolder(&t)
+				if err != nil {
+					return "error: " + err.Error()
+				}
+				if err := cd.Parse(c19KindsDocs[cd][i], u); err != nil {
+					return "error: " + err.Error()
+				}
+				return model.Dump(t)
+			}})
+		}
+	}
+	out = append(out, c19Body{name: "Fold(c19Kinds #1)->cborl", run: func(_ *gotype.Iterator, buf *bytes.Buffer) string {
+		if err := gotype.Fold(c19FillKinds(1), codecCBOR.NewEnc(buf, 0)); err != nil {
+			return "error: " + err.Error()
+		}
+		return fmt.Sprintf("%x", buf.Bytes())
+	}}, c19Body{name: "Fold(c19Kinds #2)->cborl", run: func(_ *gotype.Iterator, buf *bytes.Buffer) string {
+		if err := gotype.Fold(c19FillKinds(2), codecCBOR.NewEnc(buf, 0)); err != nil {
+			return "error: " + err.Error()
+		}
+		return fmt.Sprintf("%x", buf.Bytes())
+	}})
 	// a target that knows only a few members: everything else (nested objects, arrays, strings) is skipped
 	type partial struct {
 		In struct {
@@ -278,7 +391,7 @@ func c19Families(tier string) []engine.Family {
 	c19Init()
 	bodies := c19Bodies()
 	pairs := c19Pairs(len(bodies), tier)
-	const maxPts = 4096
+	const maxPts = 10000
 	fams := []engine.Family{
 		{Name: "two-threads", Arity: []int{len(pairs), 2}, Dev: tierPick(tier, 0, 1), Body: func(x *engine.Exec) {
 			p := pairs[x.Choose(len(pairs))]
